@@ -214,6 +214,9 @@ def run(ctx):
             if guards.implies_ge(f, x, y):
                 r6.inst({'body': b.id, 'site': mirq.site(b, i), 'guard': 'dominating comparison'}, kind=(b.id, i))
                 continue
+            if guards.implies_ge_at_callers(mir, b, x, y):
+                r6.inst({'body': b.id, 'site': mirq.site(b, i), 'guard': 'comparison dominating every call site of this helper'}, kind=(b.id, i))
+                continue
             listed = (b.nid, str(y)) in SUB_OK or (b.nid, '*') in SUB_OK
             need = SUB_NEEDS.get(b.nid)
             if listed and need is not None:
